@@ -4,6 +4,7 @@ import (
 	"strings"
 	"unicode/utf8"
 
+	"github.com/shopspring/decimal"
 	"go.lsp.dev/protocol"
 
 	"github.com/juev/hledger-lsp/internal/ast"
@@ -394,6 +395,18 @@ func writeAmountWithSign(sb *strings.Builder, amount *ast.Amount, commodityForma
 	}
 }
 
+// fitsFormat reports whether format can display qty without dropping digits.
+// A display format with fewer decimals than the amount carries would round the
+// amount, i.e. formatting would change what the journal says; such amounts
+// keep their original notation.
+func fitsFormat(qty decimal.Decimal, format NumberFormat) bool {
+	places := 0
+	if format.HasDecimal {
+		places = format.DecimalPlaces
+	}
+	return int(-qty.Exponent()) <= places
+}
+
 // formatAmountQuantity returns formatted quantity string.
 // Priority: commodity directive format > default format > original raw format > decimal string.
 func formatAmountQuantity(amount *ast.Amount, commodityFormats map[string]NumberFormat) string {
@@ -403,11 +416,14 @@ func formatAmountQuantity(amount *ast.Amount, commodityFormats map[string]Number
 	if commodityFormats != nil {
 		// First try specific commodity format
 		if format, ok := commodityFormats[amount.Commodity.Symbol]; ok {
-			return FormatNumber(amount.Quantity, format)
-		}
-		// Then try default format (stored under empty key)
-		if format, ok := commodityFormats[""]; ok {
-			return FormatNumber(amount.Quantity, format)
+			if fitsFormat(amount.Quantity, format) {
+				return FormatNumber(amount.Quantity, format)
+			}
+		} else if format, ok := commodityFormats[""]; ok {
+			// Then try default format (stored under empty key)
+			if fitsFormat(amount.Quantity, format) {
+				return FormatNumber(amount.Quantity, format)
+			}
 		}
 	}
 	if amount.RawQuantity != "" {
